@@ -29,16 +29,18 @@ type checker struct {
 	evalReal, evalMemo, sysFallthrough, stateReads, lookups, statesOpened, statesRefused atomic.Int64
 }
 
-// entryDumps memoises canonical dumps per entry pointer for ONE pass (never across operations).
-type pass map[*pending.PreConfirmed][]byte
+// pass memoises the deep hash per entry pointer. Only the 16-byte digest is kept (the canonical serialisation of an
+// entry is several KB and was the dominant retained memory of the thorough tier); the explorer's path-scoped table
+// is additionally pruned on backtrack (see explorer.visit).
+type pass map[*pending.PreConfirmed]digest
 
 func (p pass) dump(e *pending.PreConfirmed) []byte {
-	if b, ok := p[e]; ok {
-		return b
+	if d, ok := p[e]; ok {
+		return d[:]
 	}
-	b := dumpOf(e)
-	p[e] = b
-	return b
+	d := hashOf(e)
+	p[e] = d
+	return d[:]
 }
 
 // viewDigest is the deep canonical hash of everything a reader can observe through the view's own API surface:
